@@ -259,7 +259,7 @@ class C14(PropBase):
                 "thread closure, pid / create time and the stack-memory choice are equal to decision trees regenerated from the Rust source on every run "
                 "(c14_reason_is_source, c14_platform_is_source, c14_process_state_is_source); on the regenerated enumeration tables Windows 0xC0000409 is the "
                 "fast-fail reason (shadowed by no earlier table), access violation / in-page error refine exactly for access types 0/1/8, the six Linux signals "
-                "refine by their si_code tables; the process id of a /proc/self/status text of any length is the decimal value of its first Pid line (0 on "
+                "refine by their si_code tables; the values shared by consecutively consulted tables are pinned (c14_dispatch_overlaps_documented: a new value shadowing a later table breaks it); the process id of a /proc/self/status text of any length is the decimal value of its first Pid line (0 on "
                 "overflow / absence; the general first-Pid-line form with str::parse::<u32> characterised exactly); on macOS / iOS and Linux / Android every reason has a "
                 "predicted Display string whenever membership agrees with the name tables (EXC_RESOURCE / EXC_GUARD renderings included); pid / create time precedence; per-frame unloaded-module offsets are exactly instruction - base of the covering unloaded "
                 "modules, never trapping (from C08). The model is compared with process_minidump on synthesized dumps (little- and big-endian, MemoryList or Memory64List, truncated Breakpad / misc "
